@@ -676,6 +676,59 @@ def fuzz_inputs(rng):
         aeq = np.zeros((0, n))
     bubn = rng.standard_normal(m) * scale
     beq = rng.standard_normal(me) * scale
+    if n >= 3 and rng.random() < 0.06:
+        # structured family for the NORMAL solver: linear constraints that
+        # cannot be satisfied within the radius (the CG phase ends on the
+        # ball) inside a box comparable to the ball (the boundary improvement
+        # is limited by the bounds of several variables, not the first one)
+        tags.append("normal_tight")
+        delta = float(scale * 10.0 ** rng.uniform(-1, 1))
+        xl = -delta * rng.uniform(0.25, 1.3, n)
+        xu = delta * rng.uniform(0.25, 1.3, n)
+        for i in rng.choice(n, size=int(rng.integers(0, n - 1)),
+                            replace=False):
+            if rng.random() < 0.5:
+                xl[i] = -np.inf
+            else:
+                xu[i] = np.inf
+        m = int(rng.integers(1, 4))
+        aub = rng.standard_normal((m, n))
+        bub = np.abs(rng.standard_normal(m)) * delta
+        bubn = -np.linalg.norm(aub, axis=1) * delta * rng.uniform(1.5, 10, m)
+        if rng.random() < 0.5:
+            me = 1
+            aeq = rng.standard_normal((1, n))
+            beq = np.linalg.norm(aeq, axis=1) * delta * rng.uniform(2, 10, 1) \
+                * float(rng.choice([-1.0, 1.0]))
+        else:
+            me = 0
+            aeq = np.zeros((0, n))
+            beq = np.zeros(0)
+    if n >= 2 and rng.random() < 0.05:
+        # structured family: a linear inequality whose distance from the
+        # origin lies between delta*|a|_inf and delta*|a|_2 (reachable inside
+        # the ball, but not by a move along one axis), gradient pushing the
+        # step towards it
+        tags.append("ub_reach_window")
+        delta = float(scale * rng.choice([0.5, 1.0, 2.0]))
+        k = int(rng.integers(2, n + 1))
+        a = np.zeros(n)
+        a[:k] = rng.uniform(0.7, 1.3, k) * rng.choice([-1.0, 1.0], k)
+        ninf, n2 = float(np.max(np.abs(a))), float(np.linalg.norm(a))
+        m = 1
+        aub = a[None, :]
+        bub = np.array([delta * (ninf + rng.uniform(0.15, 0.85)
+                                 * (n2 - ninf))])
+        g = -a * gs * rng.uniform(0.5, 2.0) + \
+            0.05 * gs * rng.standard_normal(n)
+        h = np.zeros((n, n)) if rng.random() < 0.5 else h * 0.01 / max(
+            1e-300, float(np.max(np.abs(h)))) * gs / delta
+        xl = np.full(n, -np.inf)
+        xu = np.full(n, np.inf)
+        me = 0
+        aeq = np.zeros((0, n))
+        beq = np.zeros(0)
+        bubn = rng.standard_normal(m) * scale
     const = float(rng.standard_normal()) if rng.random() < 0.35 else 0.0
     npt = int(rng.integers(1, 2 * n + 2))
     xpt = rng.standard_normal((n, npt)) * scale
